@@ -112,6 +112,14 @@ func describe(w world.World, b *sourcebundle.Bundle, root string) (map[string]st
 			} else {
 				out["source:"+filepath.Join(e.Name(), tail)] = src.String()
 			}
+			// the answer is a function of the bundle: asking again gives it again
+			// (several packages may share the directory)
+			for i := 0; i < 5; i++ {
+				again, aerr := b.SourceForLocalPath(p)
+				if (aerr == nil) != (err == nil) || (err == nil && again.String() != src.String()) {
+					return nil, fmt.Errorf("SourceForLocalPath(%s) answers %v, %v and then %v, %v on the same bundle", filepath.Join(e.Name(), tail), src, err, again, aerr)
+				}
+			}
 		}
 	}
 	return out, nil
